@@ -255,8 +255,22 @@ func c09IterCurrent19(c *cx, f *eng.Fn) {
 }
 
 // c19Base64: the destination of base64 Decode is sized from the source.
-func c19Base64(c *cx, f *eng.Fn) {
+func c19Base64(c *cx, f *eng.Fn) { c19Base64As(c, "C19.1", f) }
+
+func c19Base64As(c *cx, rid string, f *eng.Fn) {
 	g := f.Graph()
+	// DecodedLen is the least size Decode may need for ANY input of that length
+	// (padding in unexpected places included): nothing is subtracted from it
+	f.WalkBody(func(nd ast.Node) bool {
+		be, ok := nd.(*ast.BinaryExpr)
+		if !ok || be.Op != token.SUB {
+			return true
+		}
+		if cl := f.ContainsCall(be.X, "encoding/base64.Encoding.DecodedLen"); cl != nil {
+			c.r.Check(rid, f, "size derived from DecodedLen reduced", "E-idx(d): a decode buffer is at least DecodedLen(len(src)) bytes long (Decode writes whole groups: 'the padding decodes to nothing' does not make the buffer safe to shrink)", be.Pos(), false, "the buffer is "+f.Norm(be, nil)+": a payload with more padding characters than real padding decodes past its end")
+		}
+		return true
+	})
 	for _, cl := range f.Calls("encoding/base64.Encoding.Decode") {
 		pt, _ := g.Where(cl)
 		src := f.Norm(cl.Args[1], &pt)
@@ -288,7 +302,7 @@ func c19Base64(c *cx, f *eng.Fn) {
 			})
 			return found
 		}
-		c.r.Check("C19.1", f, "base64 Decode destination for "+srcRaw, "E-idx(d): every path to base64 Decode(dst, src) passes DecodedLen(len(src)) of the same source (the destination is sized from the input, not from an expectation about it)", cl.Pos(), g.MustPassBefore(g.Entry(), pt, sized, nil), "Decode is reachable without sizing the destination from DecodedLen(len("+srcRaw+")): a longer payload writes out of range")
+		c.r.Check(rid, f, "base64 Decode destination for "+srcRaw, "E-idx(d): every path to base64 Decode(dst, src) passes DecodedLen(len(src)) of the same source (the destination is sized from the input, not from an expectation about it)", cl.Pos(), g.MustPassBefore(g.Entry(), pt, sized, nil), "Decode is reachable without sizing the destination from DecodedLen(len("+srcRaw+")): a longer payload writes out of range")
 	}
 }
 
